@@ -448,10 +448,14 @@ Section SatCore.
   Definition root_conflict (s : state) : bool :=
     root_level s && existsb (existsb (fun c => forallb (is_false s) (lits_of s c))) (watches s).
   Definition is_rfalse (r : outcome) : bool := match r with RFalse => true | _ => false end.
+  (* ... or the last thing that happened is a theory conflict reported with no decision standing (hook kind 3 is followed by
+     a learnt clause, kind 0, whenever the conflict is analysed) *)
+  Definition th_conflict_last (s : state) : bool := match log s with (3, _) :: _ => true | _ => false end.
+  Definition root_dead (s : state) : bool := root_conflict s || (root_level s && th_conflict_last s).
   Definition dead_after (o : op) (s' : state) (r : outcome) : bool :=
     match o with
     | ONewVar | OPop => false
-    | OCheck _ => is_rfalse r && root_conflict s'
+    | OCheck _ => is_rfalse r && root_dead s'
     | _ => is_rfalse r && root_level s'
     end.
   Fixpoint run_ok (ops : list op) (s : state) : bool :=
